@@ -254,6 +254,10 @@ def run_ctor(case):
         neg.append(("newaxis(name).newaxis(same name)", lambda: core.build(spec).newaxis("extra_").newaxis("extra_")))
         neg.append(("newaxis(existing name, values=)", lambda: core.build(spec).newaxis(dims[0], values=[1, 2])))
         neg.append(("stack(axis=existing name)", lambda: da.stack([core.build(spec), core.build(spec)], axis=dims[0])))
+    if nd >= 1:
+        for bad_name in ("", 5, None if False else 2.5):
+            neg.append(("set_axis(name=%r, inplace=False)" % (bad_name,), lambda bad_name=bad_name: core.build(spec).set_axis(name=bad_name, axis=0, inplace=False)))
+            neg.append(("Axis.set(name=%r)" % (bad_name,), lambda bad_name=bad_name: da.Axis(larr[0].copy(), dims[0]).set(name=bad_name, inplace=False)))
     if nd >= 2:
         neg.append(("set_axis(name=another dimension's name, inplace=False)", lambda: core.build(spec).set_axis(name=dims[1], axis=dims[0], inplace=False)))
         neg.append(("set_axis(name=another dimension's name, axis by position, inplace=False)", lambda: core.build(spec).set_axis(name=dims[0], axis=nd - 1, inplace=False)))
@@ -286,6 +290,8 @@ def run_ctor(case):
                    ("values = array of another shape", lambda b: setattr(b, "values", np.zeros(tuple(len(l) + (1 if j == i else 0) for j, l in enumerate(labels)))))]
         if nd >= 2:
             inplace.append(("set_axis(name=another dimension's name)", lambda b: b.set_axis(name=dims[(i + 1) % nd], axis=d)))
+            inplace.append(("set_axis(name='')", lambda b: b.set_axis(name="", axis=d)))
+            inplace.append(("set_axis(name=5)", lambda b: b.set_axis(name=5, axis=d)))
             inplace.append(("dims = fewer names", lambda b: setattr(b, "dims", tuple(dims[:-1]))))
             inplace.append(("axes = fewer axes (Axis objects)", lambda b: setattr(b, "axes", [da.Axis(core.label_array(l), dd) for dd, l in list(zip(dims, labels))[:-1]])))
             inplace.append(("axes = fewer axes (Axes)", lambda b: setattr(b, "axes", da.Axes([da.Axis(core.label_array(l), dd) for dd, l in list(zip(dims, labels))[:-1]]))))
@@ -301,7 +307,7 @@ def run_ctor(case):
             except Exception:
                 pass
             # (the statement asks for well-formedness, not for atomicity: e.g. a refused `values =` may already have widened the dtype)
-            check(len(b.axes) == b.values.ndim and all(ax.size == n for ax, n in zip(b.axes, b.values.shape)) and len(set(b.dims)) == len(b.dims),
+            check(len(b.axes) == b.values.ndim and all(ax.size == n for ax, n in zip(b.axes, b.values.shape)) and len(set(b.dims)) == len(b.dims) and all(isinstance(n_, str) and n_ for n_ in b.dims),
                   "array-malformed-after-refused-replacement", {"what": what, "now": core.brief(b)}, sig)
             sub.append((core.digest([spec, name, i]), True))
     drain("constructor forms", sig)
@@ -536,7 +542,13 @@ def _reindex(da, x, y, k, m):
     ds = plain_dims(x)
     d = ds[k % len(ds)]
     labs = x.axes[d].values
-    form = m % 5
+    form = m % 7
+    if form == 5:
+        # sorted by a key that leaves the labels in no monotonic order (positions 1, 3, 0, 2, ... of the sorted labels)
+        rank = {core.canon_label(l): (2 * i + 1 if 2 * i + 1 < len(labs) else 2 * (i - (len(labs) + 1) // 2 + (len(labs) % 2 == 0)) ) for i, l in enumerate(sorted(labs.tolist(), key=lambda v: (str(type(v)), v)))}
+        return x.sort_axis(d, key=lambda v: rank.get(core.canon_label(v), 0))
+    if form == 6:
+        return x.sort_axis(d, key=lambda v: -v if not isinstance(v, str) else v)
     if form == 0:
         return x.sort_axis(d)
     if form == 1:
